@@ -184,6 +184,14 @@ fn make_server(id: &str, g: &Game, beh: Beh, rng: &mut Rng) -> Box<dyn Server> {
             }
             Box::new(std::mem::replace(&mut b.server, A2sServer::new(vec![], vec![], vec![])))
         }
+        (Protocol::Unreal2, Beh::PlayersSilent) | (Protocol::Unreal2, Beh::RulesSilent) => {
+            // a partial reply: server info answered, one of the lists not
+            let mut st = crate::models::unreal2::UState::gen(rng, 2, 3);
+            st.num_players = 2;
+            let mut s = crate::models::unreal2::U2Server::new(st.info_datagram(), st.rules_datagrams(1), st.players_datagrams(1, true));
+            s.plan[if beh == Beh::RulesSilent { 1 } else { 2 }] = vec![crate::models::unreal2::UBehaviour::Silent];
+            Box::new(s)
+        }
         _ => seed_server(&Ep::Generic(idx), rng),
     }
 }
